@@ -79,7 +79,7 @@ func normObs(spec ObsSpec) (ObsSpec, []int, bool) {
 }
 
 func (s *Sim) opNewObserver(op *Op) {
-	if op.Obs == nil || len(s.observers) >= MaxObservers {
+	if op.Obs == nil || (len(s.observers) >= MaxObservers && !s.rebuilding) {
 		s.skip(op)
 		return
 	}
